@@ -2,7 +2,7 @@
    The C++ AMEn / DMRG bodies are a second implementation of the algorithms of C11 / C12: same gap (convergence is measured).
    Only theorem statements closed by `exact`, each followed by Print Assumptions. *)
 From Coq Require Import List Arith Bool ZArith.
-From TT Require Import OrdRing RankChop CppRank.
+From TT Require Import OrdRing RankChop RankChopP CppRank CppRankP.
 Import ListNotations.
 
 Remark agree_all : forallb (fun q => forallb (agree_on q) domain_thr) domain_q = true.
@@ -19,6 +19,16 @@ Proof.
   apply andb_true_iff in H. destruct H as [H1 H2]. split; [apply Nat.eqb_eq; exact H1|apply Z.leb_le; exact H2].
 Qed.
 
+(* UNBOUNDED: for every non-empty list of non-negative squared singular values and every threshold, with eps > 0, the C++ loop
+   selects exactly the rank of the (repaired) Python rule - hence everything proved about rank_chop (tail bound with ties,
+   minimality, range) holds for the compiled backend as well *)
+Theorem C17_cpp_py_rank_agree (q : list Z) thr2 : q <> [] -> Forall (ole oz) q ->
+  cpp_rank_chop q true thr2 = rank_chop q true thr2.
+Proof. exact (cpp_py_rank_agree q thr2). Qed.
+Theorem C17_cpp_rank_tail (q : list Z) thr2 : q <> [] -> Forall (ole oz) q -> ole oz thr2 ->
+  ole (discarded q (cpp_rank_chop q true thr2)) thr2.
+Proof. intros H1 H2 H3. rewrite (cpp_py_rank_agree q thr2 H1 H2). exact (rank_chop_tail q true thr2 H1 H2 H3). Qed.
+
 (* for eps <= 0 the two rules differ: the C++ code returns n-1, the Python code n *)
 Theorem C17_cpp_py_differ_nonpositive_eps : exists q, cpp_rank_chop q false 0%Z <> rank_chop q false 0%Z.
 Proof. exists [4; 1]%Z. vm_compute. discriminate. Qed.
@@ -33,5 +43,7 @@ Proof.
 Qed.
 
 Print Assumptions C17_cpp_py_rank_agree_bounded.
+Print Assumptions C17_cpp_py_rank_agree.
+Print Assumptions C17_cpp_rank_tail.
 Print Assumptions C17_cpp_py_differ_nonpositive_eps.
 Print Assumptions C17_dispatch_total.
